@@ -169,3 +169,62 @@ Proof.
   - apply forallb_flat_map_true. intros g _. unfold ser_gdim. good.
   - apply good_Db; auto.
 Qed.
+
+(* ------------------------------------------------------------------ a sufficient condition for the names hypothesis *)
+(* distinct names, none of which looks like a provisional name "New-k" of resetDims, are given back unchanged *)
+Lemma set_nth_app {A} (a : list A) x y b : set_nth (length a) x (a ++ y :: b) = a ++ x :: b.
+Proof. induction a; simpl; congruence. Qed.
+Lemma nth_error_app_mid {A} (a : list A) x b : nth_error (a ++ x :: b) (length a) = Some x.
+Proof. induction a; simpl; auto. Qed.
+
+Lemma count_same_none w l skip k : (forall x, In x l -> x <> w) -> count_same w l skip k = O.
+Proof.
+  revert k. induction l as [|x l IH]; intros k H; simpl; auto.
+  rewrite IH by (intros y Hy; apply H; simpl; auto).
+  destruct (Nat.eqb k skip); auto.
+  destruct (weqb x w) eqn:E; auto. apply weqb_eq in E. exfalso. apply (H x); simpl; auto.
+Qed.
+Lemma count_same_app w a b skip k :
+  count_same w (a ++ b) skip k = (count_same w a skip k + count_same w b skip (k + length a))%nat.
+Proof.
+  revert k. induction a as [|x a IH]; intros k; simpl.
+  - rewrite Nat.add_0_r. reflexivity.
+  - rewrite IH. replace (S k + length a)%nat with (k + S (length a))%nat by lia. lia.
+Qed.
+
+Lemma dedupe_unchanged fuel done w rest :
+  (forall x, In x done -> x <> w) -> (forall x, In x rest -> x <> w) ->
+  dedupe fuel (done ++ w :: rest) (length done) = done ++ w :: rest.
+Proof.
+  intros Hd Hr. destruct fuel; simpl; auto. rewrite nth_error_app_mid.
+  rewrite count_same_app. rewrite count_same_none by auto. simpl.
+  rewrite Nat.eqb_refl. rewrite count_same_none by auto. reflexivity.
+Qed.
+
+Lemma set_names_ok names : forall done rest,
+  length rest = length names -> NoDup (done ++ names) -> (forall w, In w names -> ~ In w rest) ->
+  set_names (done ++ rest) (length done) names = done ++ names.
+Proof.
+  induction names as [|w r IH]; intros done rest Hlen Hnd Hdis; cbn [set_names].
+  - destruct rest; simpl in *; try discriminate. reflexivity.
+  - destruct rest as [|d rest']; simpl in Hlen; try discriminate.
+    rewrite set_nth_app. rewrite dedupe_unchanged.
+    + replace (done ++ w :: rest') with ((done ++ [w]) ++ rest') by (rewrite <- app_assoc; reflexivity).
+      replace (S (length done)) with (length (done ++ [w])) by (rewrite app_length; simpl; lia).
+      rewrite IH.
+      * rewrite <- app_assoc. reflexivity.
+      * lia.
+      * rewrite <- app_assoc. exact Hnd.
+      * intros x Hx Hin. apply (Hdis x); simpl; auto.
+    + intros x Hx E. subst x. apply NoDup_remove_2 in Hnd. apply Hnd. apply in_or_app. auto.
+    + intros x Hx E. subst x. apply (Hdis w); simpl; auto.
+Qed.
+
+Lemma replay_names_id names :
+  NoDup names -> (forall w, In w names -> ~ In w (default_names (length names))) -> replay_names names = names.
+Proof.
+  intros Hnd Hdis. unfold replay_names.
+  apply (set_names_ok names [] (default_names (length names))); auto.
+  unfold default_names. rewrite map_length, seq_length. reflexivity.
+Qed.
+
